@@ -43,7 +43,25 @@ def snapshot(b: gram.Built, g):
     # compared to 12 digits, the tolerance C19 grants re-extraction)
     weights = sorted((str(c05.sym_of(b, s)), round(float(w), 12)) for s, w in g.get_weights().items())
     return {"start": str(c05.sym_of(b, g.starting_symbol)), "alts": alts, "dist": dist, "rec": rec, "terminals": c05.syms(b, g.terminals),
-            "nonterminals": c05.syms(b, g.non_terminals), "weights": weights, "nodes": c05.syms(b, g.all_nodes)}
+            "nonterminals": c05.syms(b, g.non_terminals), "weights": weights, "nodes": c05.syms(b, g.all_nodes),
+            "refinements": refinement_state(b.classes)}
+
+
+def refinement_state(classes):
+    """the parameters of the refinement OBJECTS the productions carry (bounds, option lists, matrices): part of the productions"""
+    from geneticengine.grammar.utils import get_arguments
+    out = []
+    for cls in classes:
+        try:
+            args = get_arguments(cls)
+        except Exception:  # noqa: BLE001
+            continue
+        for name, ty in args:
+            if hasattr(ty, "__metadata__"):
+                mh = ty.__metadata__[0]
+                state = sorted((k, repr(v.tolist()) if hasattr(v, "tolist") else repr(v)) for k, v in vars(mh).items() if not callable(v))
+                out.append([cls.__name__, name, type(mh).__name__, state])
+    return out
 
 
 def backtracking_spec(rng):
@@ -413,6 +431,85 @@ def refinement_parameters_history(h: Harness, rng):
     h.seen("refinement-parameters-history", nontrivial=made > 10)
 
 
+def empty_refinement_history(h: Harness, rng):
+    """a production whose refinement admits NO value (an integer range written with its bounds the wrong way round: a declaration error
+    the library reports by failing every creation through it): however often it is tried and fails, the production stays what it was
+    declared -- its bounds are not rewritten, and no program with that production ever appears"""
+    from linear import DSGE, GE, SGE, safe
+    C = gram.ClassSpec
+    spec = gram.Spec([C("A0", True, None), C("Lit", False, 0, [("k", ("ann", "int", ("intRange", 0, 3)))]),
+                      C("Bad", False, 0, [("k", ("ann", "int", ("intRange", 5, 2)))]), C("Neg", False, 0, [("e", ("cls", 0))])], 0, [2, 1, 3])
+    b = gram.build(spec)
+    g = b.extract()
+    first = snapshot(b, g)
+    r = NativeRandomSource(rng.randrange(10**6))
+    made = failed = 0
+    bad_cls = b.classes[2]
+    with warnings.catch_warnings():
+        warnings.simplefilter("ignore")
+        reps = [TreeBasedRepresentation(g, synth.make_decider(k, 4, r, g)) for k in ("grow", "full", "pigrow")]
+        reps += [GE(g, synth.make_decider("grow", 4, r, g), gene_length=32), SGE(g, synth.make_decider("grow", 4, r, g), gene_length=16), DSGE(g, 4)]
+    for k in range(h.n(60, 400)):
+        rep = reps[k % len(reps)]
+        st, p = safe(lambda: rep.genotype_to_phenotype(rep.create_genotype(r)))
+        if st != "ok":
+            failed += 1
+            continue
+        made += 1
+        # (judged where values come from a random source; a genotype-backed source reduces its gene modulo the -- here negative -- width
+        # of the range and returns something: a range without values has no right answer, C18 speaks about non-empty ones)
+        if k % len(reps) < 3 and "Bad" in repr(p):
+            h.fail("create_genotype", "creatable-set-changed", f"operation #{k} created {p!r}: the production Bad(k: IntRange(5, 2)) admits no value", ["empty-refinement", k])
+            break
+    now = snapshot(b, g)
+    h.count("empty-refinement-history:created", made)
+    h.count("empty-refinement-history:failed", failed)
+    h.seen("empty-refinement-history", nontrivial=failed > 0)
+    if now != first:
+        key = next(k for k in first if first[k] != now[k])
+        h.fail("IntRange.generate", "grammar-modified", f"after {made + failed} creations ({failed} failed in the production with the empty range) the grammar's "
+               f"{key} changed: {first[key]} -> {now[key]}", ["empty-refinement"])
+
+
+def geml_declaration_history(h: Harness):
+    """the sklearn-style regressors of `geml` extract their grammar from the declared production list
+    `geml.grammars.symbolic_regression.components` plus one Var production for the data set: a fit (a search) leaves that declaration
+    as it was, and a grammar extracted from it afterwards has the productions it had before"""
+    try:
+        import numpy as np
+        import pandas as pd
+        from geml.grammars import symbolic_regression as sr
+        from geml import regressors
+        from geneticengine.grammar.grammar import extract_grammar
+    except Exception as e:  # noqa: BLE001
+        h.notes.append(f"geml wrappers not importable here ({type(e).__name__}): declaration history skipped")
+        return
+    names = lambda: [c.__name__ for c in sr.components]   # noqa: E731
+    prods = lambda: sorted(p.__name__ for p in extract_grammar(list(sr.components), sr.Expression).alternatives[sr.Expression])   # noqa: E731
+    declared, ids, extracted = names(), [id(c) for c in sr.components], prods()
+    rs = np.random.RandomState(h.rng.randrange(10**6))
+    kinds = [regressors.RandomSearchRegressor] + ([regressors.HillClimbingRegressor, regressors.GeneticProgrammingRegressor] if h.thorough else [])
+    for j, kind in enumerate(kinds):
+        cols = [f"c{j}a", f"c{j}b"]
+        data = pd.DataFrame({c: rs.rand(12) for c in cols})
+        try:
+            kind(max_time=1, seed=j, remove_time_overheads=False).fit(data, data[cols[0]] + data[cols[1]])
+        except Exception as e:  # noqa: BLE001
+            h.notes.append(f"geml {kind.__name__}.fit raised {type(e).__name__}: {e}")
+            continue
+        h.count(f"geml-fit:{kind.__name__}")
+        h.seen(f"geml-declaration:{kind.__name__}", nontrivial=True)
+        if names() != declared or [id(c) for c in sr.components] != ids:
+            h.fail(f"{kind.__name__}.fit", "grammar-declaration-modified",
+                   f"{kind.__name__}.fit changed the declared production list geml.grammars.symbolic_regression.components: {declared} -> {names()}", ["geml", kind.__name__])
+            del sr.components[len(declared):]
+            return
+        if prods() != extracted:
+            h.fail(f"{kind.__name__}.fit", "creatable-set-changed", f"a grammar extracted from the declaration after {kind.__name__}.fit has the productions "
+                   f"{prods()}, before it had {extracted}", ["geml", kind.__name__])
+            return
+
+
 def corpus():
     """fixed witnesses: a failing production that is the ONLY alternative of a nested abstract symbol / one of two /
     sits below a list, with the failure certain (list always empty) or possible"""
@@ -457,6 +554,8 @@ def run(h: Harness):
     refinement_parameters_history(h, rng)
     two_level_context_history(h, rng)
     simplegp_history(h, rng)
+    empty_refinement_history(h, rng)
+    geml_declaration_history(h)
     for spec in corpus():
         for _ in range(3):
             history(h, spec, rng)
